@@ -21,6 +21,13 @@ in attribute form (``doc.attr |= x``).  Single operations start alternately from
 put on the object by the *refresh* event (commit, then attribute access) and by the
 *load* event (row loaded by a new session).
 
+Inheritance: a 4-level single-table and a 4-level joined-table hierarchy (all classes
+declared before mapper configuration) with a MutableDict column on the root and a
+MutableList column on the second level; an instance of every class receives its value
+by construction, load, refresh, expire + reload, unpickle + re-attach and merge
+(load=True / False) and is then mutated once (``mutable-column-not-tracked-on-
+{declaring-class,direct-subclass,deep-subclass}``).
+
 Mechanisms: ``mutable<kind>-<op>-not-tracked`` when the operation itself loses the change.
 In sequences a control experiment (same operation, same value, fresh object, plain
 commit + load) decides whether the operation or the preceding history is to blame; in the
